@@ -14,6 +14,7 @@
 
    Definitions only; proofs in Proofs/CommitProofs.v. *)
 From Coq Require Import ZArith List Bool Arith.
+Require Import DS.Model.CommitBase DS.Gen.GenCommit.
 Import ListNotations.
 Open Scope Z_scope.
 
@@ -76,7 +77,10 @@ Record event := { e_actor : aid; e_kind : evkind }.
 Definition file (w : world) (v : vid) : meta :=
   nth v (w_files w) {| m_ops := []; m_cur := 0; m_lu := 0 |}.
 
-Definition stamp_eqb (a b : meta) : bool := (m_cur a =? m_cur b) && (m_lu a =? m_lu b).
+(* the OCC validation and the new version's stamp are the REGENERATED kernels (Gen/GenCommit.v, read off
+   MetadataManager.commit on every run): gen_stamp_eqb = the fields compared with the base,
+   gen_new_lu = `max(now_ms, current.last_updated_ms + 1)` *)
+Definition stamp_eqb (a b : meta) : bool := gen_stamp_eqb (m_cur a) (m_lu a) (m_cur b) (m_lu b).
 
 Definition upd (a : aid) (s : astate) (f : aid -> astate) : aid -> astate :=
   fun b => if Nat.eqb b a then s else f b.
@@ -96,7 +100,7 @@ Definition new_meta (w : world) (s : astate) (now : Z) : meta :=
               | KSet c' => c'
               | KCond c0 c' => if m_cur b =? c0 then c' else m_cur b
               end;
-     m_lu := Z.max now (m_lu c + 1) |}.                             (* strictly after the validated version *)
+     m_lu := gen_new_lu now (m_lu c) |}.                            (* strictly after the validated version *)
 
 Definition lock_free_for (c : cfg) (w : world) (a : aid) : bool :=
   match lockkind c with
@@ -186,6 +190,26 @@ Definition step (c : cfg) (w : world) (e : event) : option world :=
             w_actors := upd a (set_pc s (PDone (match p with PFlipped => AbortedPost | _ => Aborted end))) (w_actors w) |}
   | _, _ => None
   end.
+
+(* The protocol actions each event of a successful attempt stands for (CommitBase.paction).  EValidate is the
+   pointer resolution + metadata read + OCC comparison (metadata files are write-once, so these are one step);
+   on conditional-write storage the pointer read is the one that also yields the ETag (a_etag := v in `step`).
+   Proofs/CommitGenProofs.v shows that the concatenation over the success path is exactly the regenerated
+   skeleton gen_commit_path_cas / gen_commit_path_plain. *)
+Definition actions_of (casb : bool) (k : evkind) : list paction :=
+  match k with
+  | ELockTry true => [ALock]
+  | EValidate _ _ => (if casb then [AReadPtrEtag] else []) ++ [AMaybe ARefresh; AValidate]
+  | EMetaW _ => [AStamp; AWriteMeta]
+  | EFence _ => [AFence]
+  | EFlip _ => [AFlip]
+  | ERelease => [ARelease]
+  | _ => []
+  end.
+(* the events of one successful attempt inside MetadataManager.commit (after the transaction's base read) *)
+Definition success_events (v : vid) (now : Z) : list evkind :=
+  [ELockTry true; EValidate v true; EMetaW now; EFence true; EFlip true; ERelease].
+Definition model_path (casb : bool) : list paction := flat_map (actions_of casb) (success_events 0%nat 0).
 
 (* every event list is a schedule: events that are not enabled are skipped *)
 Definition step_skip (c : cfg) (w : world) (e : event) : world :=
